@@ -38,6 +38,8 @@ def run(ctx):
     # 1. parser model vs real parser on token sequences (acceptance + alternatives taken), semantic subset on the real code
     rows = c17.hparse(["-mode", "seqs", "-n", "30000" if thorough else "2500", "-seed", str(ctx.seed)] +
                       (["-exhaust", "5"] if thorough else ["-exhaust", "3"]))
+    for r in [r for r in rows if r.get("panic")][:3]:
+        ctx.violation({"kind": "real-parser-panics", "case": r, "explain": "grammar.Parser over BQL() panicked: " + r["panic"]})
     bad = c17.model_mismatches(ctx, "cases_c18", rows)
     for i in bad[:5]:
         ctx.violation({"kind": "parser-model-vs-real-parser", "case": rows[i]})
